@@ -303,17 +303,17 @@ class FamWorld:
             if src.it is not None and src.it["dirty"]:
                 return "skip:L2-copy-in-dirty-window"
             tag = f"copy:{src.kind}"
-            pre_ok = self._copy_equality_applicable(src)
+            pre_ok = self.prop == "C16" and self._copy_equality_applicable(src)
             c, e = _call(src.root.copy)
             if e is not None:
                 self._after_step(src, tag)
-                if src.kind == "seq":
+                if src.kind == "seq" and self.prop == "C16":
                     raise _V(Violation("COPY-RAISED", f"Sequence.copy() raised {type(e).__name__}: {e}",
                                        {"route": tag, "op": "derive"}))
                 return f"skip:copy-raised:{type(e).__name__}"
             f = Family(src.kind, c, tag, src.index)
             new.append(f)
-            if pre_ok:
+            if pre_ok and self.prop == "C16":
                 try:
                     a, b = src.canon(), f.canon()
                 except Unreadable as u:
